@@ -69,9 +69,46 @@ def verify(name, suite=False, tier="quick", checks=None):
         rc0, out0 = run_demo(wt, demo)
         ap = sh(["git", "-C", wt, "apply", os.path.join(d, "patch.diff")])
         if ap.returncode != 0:
-            meta["verify_error"] = "patch does not apply: " + ap.stderr[-300:]
-            print(name, meta["verify_error"])
-            return meta
+            # the repository moved on under the patch (repairs nearby): try to carry it over - three-way against the
+            # blobs it was written for, then with fuzz - and, if that works, store the re-based patch
+            first_err = ap.stderr[-300:]
+            ap = sh(["git", "-C", wt, "apply", "--3way", os.path.join(d, "patch.diff")])
+            how = "git apply --3way"
+            if ap.returncode != 0:
+                sh(["git", "-C", wt, "reset", "-q", "--hard", "HEAD"])
+                ap = sh(["patch", "-p1", "-F3", "--no-backup-if-mismatch", "-s", "-i", os.path.join(d, "patch.diff")], cwd=wt)
+                how = "patch -F3"
+                for root, _dirs, files in os.walk(wt):
+                    for f in files:
+                        if f.endswith((".rej", ".orig")):
+                            ap.returncode = ap.returncode or 1
+            if ap.returncode != 0:
+                meta["verify_error"] = "patch does not apply: " + first_err
+                print(name, meta["verify_error"])
+                return meta
+            sh(["git", "-C", wt, "reset", "-q"])
+            newdiff = sh(["git", "-C", wt, "diff", "HEAD", "--", "src"]).stdout
+            changed = [l[6:] for l in newdiff.splitlines() if l.startswith("+++ b/") and l.endswith(".py")]
+            comp = sh(["/venv/bin/python", "-m", "py_compile"] + [os.path.join(wt, c) for c in changed]) if changed else None
+            def edit_lines(text):
+                return sorted(l for l in text.splitlines() if l[:1] in "+-" and not l.startswith(("+++", "---")))
+            same_edit = edit_lines(newdiff) == edit_lines(open(os.path.join(d, "patch.diff")).read())
+            if "<<<<<<<" in newdiff or ">>>>>>>" in newdiff or (comp is not None and comp.returncode != 0) or not same_edit:
+                meta["verify_error"] = "patch does not apply (conflict): " + first_err
+                print(name, meta["verify_error"])
+                return meta
+            if newdiff.strip():
+                if not os.path.exists(os.path.join(d, "patch.orig.diff")):
+                    shutil.copy(os.path.join(d, "patch.diff"), os.path.join(d, "patch.orig.diff"))
+                open(os.path.join(d, "patch.diff"), "w").write(newdiff)
+                head = sh(["git", "-C", "/repo", "rev-parse", "--short", "HEAD"]).stdout.strip()
+                note = f"patch re-based onto {head} with {how} (same edit, moved context)"
+                if isinstance(meta.get("history"), list):
+                    meta["history"].append(note)
+                else:
+                    meta["history"] = ((meta.get("history") or "") + "; " + note).lstrip("; ")
+                meta.pop("verify_error", None)
+                print(name, f"re-based with {how}")
         rc1, out1 = run_demo(wt, demo)
         meta["demo_without_patch_rc"] = rc0
         meta["demo_with_patch_rc"] = rc1
